@@ -44,7 +44,7 @@ def run_contract(contract: dict, inputs: dict, fn=None):
     except (TypeError, ValueError):
         pass
     args = [inputs[n] for n in order if n in inputs and n != 'cls' and n not in kwonly]
-    kwargs = {n: inputs[n] for n in order if n in inputs and n in kwonly}
+    kwargs = {n: inputs[n] for n in list(order) + list(contract.get('kwonly', [])) if n in inputs and n in kwonly}
     if 'source' in kwonly and 'source' in inputs:
         kwargs['source'] = inputs['source']
     failed = []
